@@ -24,6 +24,9 @@ Normalisation rules (differences that are NOT differences of the experiment):
      (instantiate_dowhile_next_iteration only adds edges); it carries no data.  Such edges are ignored on both sides.
      Every edge implied by a data reference must be present on both sides.
  R4  Ordering of sets (edges, represents, top level folders) is free.
+ R5  The spelling of a reference is free: `src:ref` in a stage-0 component and `stage0.src:ref` are the same reference
+     (the `references` list is compared after every stage-less reference to a node/placeholder of the consumer's own
+     stage got its stage prefix; the parsed form - stage, producer, file, method, targets - is compared as well).
 """
 import copy
 import json
@@ -41,9 +44,40 @@ def jclone(obj):
 
 
 # ---------------------------------------------------------------------------------------------- normalisation
+_NODE = re.compile(r'^stage(\d+)\.(.+)$')
+
+
+def absolute_reference(ref, consumer_stage, producers):
+    """R5: `producer[/file]:method` written without a stage means the producer of the consumer's own stage. The live
+    configuration keeps the spelling of the package for some components while the loader spells every reference
+    with its stage; both denote the same (stage, producer, file, method). `producers`: set of (stage, name) of all
+    nodes and loop placeholders. References whose first path element is not such a producer (data/..., input/...)
+    are direct references and are left alone."""
+    if not isinstance(ref, str) or re.match(r'^stage\d+\.', ref):
+        return ref
+    head = ref.rsplit(':', 1)[0].split('/', 1)[0]
+    if (consumer_stage, head) in producers:
+        return 'stage%d.%s' % (consumer_stage, ref)
+    return ref
+
+
 def normalise(obs, mode):
     o = jclone(obs)
+    producers = set()
+    for n in o['nodes']:
+        m = _NODE.match(n)
+        if m:
+            producers.add((int(m.group(1)), m.group(2)))
+    for lp in o.get('loops', {}).values():
+        for p in lp['placeholders']:
+            m = _NODE.match(p)
+            if m:
+                producers.add((int(m.group(1)), m.group(2)))
     for n, d in o['nodes'].items():
+        stage = d['conf'].get('stage')
+        if isinstance(d['conf'].get('references'), list):
+            d['conf']['references'] = [absolute_reference(r, stage, producers) for r in d['conf']['references']]
+        d['refs']['raw'] = [absolute_reference(r, stage, producers) for r in d['refs']['raw']]
         if isinstance(d.get('env'), dict):
             d['env'].pop('FLOW_RUN_ID', None)                                   # R1
         if mode == 'none':
